@@ -278,7 +278,9 @@ FIELDS = {
     'tags': 'arrs', 'nums': 'arrn', 'items': 'arro',
     'user': 'obj', 'opt': 'any',
 }
-STRS = ['active', 'inactive', 'John', 'Johnson', 'son', 'a', '', 'x y', 'urgent', 'admin', 'it@example.com', 'Zoë', 'a"b', "it's"]
+STRS = ['active', 'inactive', 'John', 'Johnson', 'son', 'a', '', 'x y', 'urgent', 'admin', 'it@example.com', 'Zoë', 'a"b', "it's",
+        # a quote of the other style followed, inside the same literal, by a run of blanks / a tab / a newline, and the collapsed variants
+        "O'Brien  Jr", "O'Brien Jr", 'a"b  c', 'a"b c', "it's\tx", "it's x", 'two  blanks', 'two blanks', "l'un\n deux", "l'un deux"]
 NUMS = [0, 1, 2, 5, 17, 18, 19, 100, 0.5, 2.5, 1e3, 3]
 
 
@@ -372,7 +374,7 @@ def gen_cond(rng):
     p, ty = gen_path(rng)
     r = rng.random()
     if r < 0.12:
-        return p + ws(rng) + rng.choice(['EXISTS', 'DOES NOT EXIST'])
+        return p + ws(rng) + rng.choice(['EXISTS', 'DOES NOT EXIST', 'DOES NOT EXIST', 'DOES  NOT EXIST', 'DOES NOT\tEXIST', 'DOES\nNOT EXIST'])
     if ty == 'num':
         if r < 0.8:
             return p + ws(rng) + rng.choice(['==', '!=', '<', '<=', '>', '>=']) + ws(rng) + numlit(rng)
@@ -439,7 +441,7 @@ class Untyped(Exception):
 def ref_parse(text):
     """independent parser for the documented grammar: returns an AST or None if the text is not in it"""
     toks = re.findall(r'''\s*(DOES NOT EXIST|NOT IN|STARTS_WITH|ENDS_WITH|[A-Za-z_][A-Za-z0-9_]*|\d+\.\d+(?:[eE][+-]?\d+)?|\d+(?:[eE][+-]?\d+)?|"[^"\\]*"|'[^'\\]*'|==|!=|<=|>=|[()\[\],.<>])''', text)
-    if ''.join(toks).replace(' ', '') != re.sub(r'\s+', '', text).replace(' ', ''):
+    if re.sub(r'\s+', '', ''.join(toks)) != re.sub(r'\s+', '', text):      # every non-blank character belongs to a token (literals may hold tabs and newlines)
         return None
     pos = [0]
 
